@@ -218,6 +218,8 @@ pub struct Ctrl {
     pub busy: BusyGen,
     pub busy_violations: Vec<(&'static str, u8, u32)>,
     pub ignored_asleep: u64,
+    /// (operation index, opcode) of refresh triggers received in deep sleep
+    pub triggers_while_asleep: Vec<(u32, u8)>,
     /// experiment / C01 busy contexts: a controller that does not latch commands received while BUSY is asserted
     pub drop_while_busy: bool,
     pub dropped_while_busy: u64,
@@ -284,6 +286,7 @@ impl Ctrl {
             busy: BusyGen::default(),
             busy_violations: Vec::new(),
             ignored_asleep: 0,
+            triggers_while_asleep: Vec::new(),
             drop_while_busy: false,
             dropped_while_busy: 0,
             xs: 0,
@@ -500,6 +503,15 @@ impl Ctrl {
         self.cur = Some(self.cmds.len() - 1);
         if asleep {
             self.ignored_asleep += 1;
+            // a refresh trigger that reaches a controller in deep sleep has no effect, but that it was sent is
+            // what C09 is about: remembered apart from the effective refreshes
+            let trigger = match self.cfg.family {
+                Family::Ssd => op == 0x20,
+                Family::Uc | Family::Acep => op == 0x12,
+            };
+            if self.asleep && trigger {
+                self.triggers_while_asleep.push((self.opidx, op));
+            }
             return;
         }
         bit_set(&mut self.written, op);
